@@ -206,17 +206,25 @@ func clip(s string, n int) string {
 type cred struct {
 	U, P string
 	None bool // no credentials presented at all (HTTP: no Proxy-Authorization field)
+
+	// Bad: HTTP only, the field carries Token verbatim after the scheme instead of the RFC 7617
+	// encoding of U:P; Token is never the valid token of a configured user.
+	Bad   bool
+	Token string
 }
 
 func (c cred) String() string {
 	if c.None {
 		return "<none>"
 	}
+	if c.Bad {
+		return fmt.Sprintf("<malformed %q>", clip(c.Token, 24))
+	}
 	return fmt.Sprintf("(u[%d]=%q p[%d]=%q)", len(c.U), clip(c.U, 24), len(c.P), clip(c.P, 24))
 }
 
 func inTable(users []cred, c cred) bool {
-	if c.None {
+	if c.None || c.Bad {
 		return false
 	}
 	for _, u := range users {
@@ -242,6 +250,7 @@ type s5Reply struct {
 	Pushed  bool // the request was sent although the negotiation had failed
 
 	EarlySent bool // application bytes went out behind the request, before the reply
+	Retried   int  // further RFC 1929 messages attempted after a refusal (the write fails once the server has closed)
 }
 
 func contains(list []byte, v byte) bool { return bytes.IndexByte(list, v) >= 0 }
@@ -255,7 +264,11 @@ func contains(list []byte, v byte) bool { return bytes.IndexByte(list, v) >= 0 }
 // early holds application bytes an optimistic client sends right behind its request, before the reply
 // (RFC 1928 does not forbid it): earlyMode 1 = in the same write as the request, 2 = in a write of
 // their own immediately after it. r.EarlySent tells whether they went out.
-func rawSocks5(c io.ReadWriter, methods []byte, cr cred, cmd byte, tgt target, pushy bool, earlyMode int, early []byte) (r s5Reply) {
+//
+// retries (pushy only): after a failed RFC 1929 status the client sends these further sub-negotiation
+// messages without waiting for an answer (RFC 1929: the server MUST close the connection after a
+// failure, so none of them may be answered or honoured) and then its request.
+func rawSocks5(c io.ReadWriter, methods []byte, cr cred, cmd byte, tgt target, pushy bool, earlyMode int, early []byte, retries []cred) (r s5Reply) {
 	r = s5Reply{Sel: -1, Auth: -1, Rep: -1}
 	msg := append([]byte{5, byte(len(methods))}, methods...)
 	if _, r.Err = c.Write(msg); r.Err != nil {
@@ -299,6 +312,18 @@ func rawSocks5(c io.ReadWriter, methods []byte, cr cred, cmd byte, tgt target, p
 		if b[1] != 0 && !pushy {
 			r.Stage = "auth-refused"
 			return
+		}
+		if b[1] != 0 {
+			for _, rc := range retries {
+				am := []byte{1, byte(len(rc.U))}
+				am = append(am, rc.U...)
+				am = append(am, byte(len(rc.P)))
+				am = append(am, rc.P...)
+				r.Retried++
+				if _, err := c.Write(am); err != nil {
+					break // the server is gone, as it should be
+				}
+			}
 		}
 	default:
 		if !pushy {
@@ -464,8 +489,12 @@ func rawHTTPConnect(c io.ReadWriter, authority string, creds []cred, v httpVaria
 		if !v.PadLast {
 			sb.WriteString(pad)
 		}
-		if !cr.None {
-			sb.WriteString(v.Field + ": " + v.Scheme + " " + base64.StdEncoding.EncodeToString([]byte(cr.U+":"+cr.P)) + "\r\n")
+		switch {
+		case cr.None:
+		case cr.Bad:
+			sb.WriteString(v.Field + ": " + v.Scheme + " " + cr.Token + "\r\n")
+		default:
+			sb.WriteString(v.Field + ": " + v.Scheme + " " + basicToken(cr) + "\r\n")
 		}
 		if v.PadLast {
 			sb.WriteString(pad)
@@ -496,6 +525,9 @@ func rawHTTPConnect(c io.ReadWriter, authority string, creds []cred, v httpVaria
 	}
 	return statuses, nil
 }
+
+// basicToken is the RFC 7617 token of a user-id / password pair.
+func basicToken(c cred) string { return base64.StdEncoding.EncodeToString([]byte(c.U + ":" + c.P)) }
 
 // declaredBody returns the Content-Length a response head declares (0 if none). Chunked bodies are
 // not expected from a CONNECT proxy handshake and are reported as undecodable rather than guessed at.
